@@ -230,6 +230,52 @@ Proof.
     eapply Qle_lt_trans; [|exact Hhi]. unfold diagram_temps. apply linspace_le_b; [apply Qlt_le_weak; exact Hlo|lia].
 Qed.
 
+(** ** the closing state and the success of the call do not depend on the VLE solver (hence not on its options) *)
+(** [let sc = State::critical_point(eos, None, critical_temperature, SolverOptions::default())?;] is the only [?] of
+    [PhaseDiagram::pure]: the call fails exactly when the critical point (computed with DEFAULT options) fails. *)
+Definition diagram_res {A} (solve : Q -> option A -> option A) (tmin : Q) (n : nat) (temp : A -> Q) (crit : option A) : option (list A) :=
+  match crit with
+  | None => None
+  | Some c => Some (diagram solve tmin (temp c) n c)
+  end.
+
+Theorem diagram_res_ok_iff {A} (solve : Q -> option A -> option A) tmin n temp (crit : option A) :
+  diagram_res solve tmin n temp crit <> None <-> crit <> None.
+Proof. destruct crit; cbn; split; intros H; try discriminate; try (exfalso; apply H; reflexivity); intros E; discriminate. Qed.
+
+Theorem diagram_res_last_indep {A} (solve1 solve2 : Q -> option A -> option A) tmin n temp (c : A) l1 l2 :
+  diagram_res solve1 tmin n temp (Some c) = Some l1 -> diagram_res solve2 tmin n temp (Some c) = Some l2 ->
+  last l1 c = c /\ last l2 c = c.
+Proof.
+  cbn. intros E1 E2. injection E1 as <-. injection E2 as <-. split; apply diagram_last.
+Qed.
+
+(** * the per-component helpers [vapor_pressure], [boiling_temperature], [vle_pure_comps] (vle_pure.rs) *)
+(** [(0..eos.components()).map(|i| { let pure_eos = eos.subset(&[i]); solve(pure_eos).ok() })]: entry i is the result of
+    the pure solver on the sub-model of component i — of the SAME model (options included), which is what [subset] has to deliver *)
+Definition per_component {M R} (subset : nat -> M) (solve : M -> option R) (ncomp : nat) : list (option R) :=
+  map (fun i => solve (subset i)) (seq 0 ncomp).
+
+Lemma per_component_length {M R} (subset : nat -> M) (solve : M -> option R) n : length (per_component subset solve n) = n.
+Proof. unfold per_component. rewrite map_length, seq_length. reflexivity. Qed.
+
+Lemma per_component_nth {M R} (subset : nat -> M) (solve : M -> option R) n i : (i < n)%nat ->
+  nth i (per_component subset solve n) None = solve (subset i).
+Proof.
+  intros Hi. unfold per_component. set (f := fun i : nat => solve (subset i)).
+  rewrite (nth_indep _ None (f 0%nat)) by (rewrite map_length, seq_length; exact Hi).
+  rewrite map_nth, seq_nth by exact Hi. reflexivity.
+Qed.
+
+Theorem per_component_spec {M R} (subset : nat -> M) (solve : M -> option R) n i : (i < n)%nat ->
+  length (per_component subset solve n) = n /\ nth i (per_component subset solve n) None = solve (subset i).
+Proof. intros Hi. split; [apply per_component_length|apply per_component_nth; exact Hi]. Qed.
+
+(** a one-component model whose [subset [0]] is the model itself: the helper returns what the pure solver returns *)
+Lemma per_component_pure {M R} (subset : nat -> M) (solve : M -> option R) (m : M) :
+  subset 0%nat = m -> per_component subset solve 1 = [solve m].
+Proof. intros E. unfold per_component. cbn. rewrite E. reflexivity. Qed.
+
 (** * Non-vacuity / executable examples *)
 Example ex_temps : diagram_temps 100 200 5 = [100 + 0 * ((100 + (200 - 100) * (3 / 4) - 100) / 3);
                                                100 + 1 * ((100 + (200 - 100) * (3 / 4) - 100) / 3);
